@@ -154,6 +154,10 @@ WORKFLOW_STATE_MACHINE_DATA = {
         events.WORKFLOW_FAILED: statuses.FAILED,
         events.TASK_RUNNING: statuses.RUNNING,
         events.TASK_RESUMING: statuses.RUNNING,
+        # A task can still fail when the workflow is paused. For example, the fail command is
+        # processed right after the task event that paused the workflow or a pending task fails.
+        events.TASK_FAILED_WORKFLOW_ACTIVE: statuses.FAILED,
+        events.TASK_FAILED_WORKFLOW_DORMANT: statuses.FAILED,
     },
     statuses.RESUMING: {
         events.WORKFLOW_PAUSING_WORKFLOW_ACTIVE: statuses.PAUSING,
